@@ -164,7 +164,7 @@ func main() {
 	r.Rule = "destination side: case = (file configuration, fault position as write-call index or byte offset, permanent/once, bytes accepted by the failing call, caller stops or continues after an error); " +
 		"source side: case = (file, armored?, byte offset of the failure, error kind, delivery granularity); non-trivial = the injected fault actually fired; distinct by the tuple"
 	r.Assumptions = []string{
-		"source faults are sticky (once failed, always failing); a transient source error is outside the property",
+		"source faults are permanent or transient; a transient error that the standard library absorbs without any loss (io.ReadFull drops an error that arrives together with the bytes it asked for) and that leaves the complete true plaintext is not a violation; once an error HAS surfaced the stream must keep failing even if the source recovers",
 		"runs in which the injected fault was never reached are discarded and counted",
 		"'an error other than a clean end of stream' is decided by identity with io.EOF, as io.ReadAll and io.Copy do",
 	}
@@ -439,6 +439,8 @@ func srcSide(r *mon.Run) {
 		kind     errKind
 		max      int
 		withData bool
+		once     bool // transient source failure: the stream must still keep failing
+		dearmor  bool // de-armoring alone (armor.NewReader without Decrypt)
 	}
 	var jobs []job
 	for i := range files {
@@ -490,6 +492,14 @@ func srcSide(r *mon.Run) {
 					max = 1 + (o % 7)
 				}
 				jobs = append(jobs, job{f: f, at: o, kind: k, max: max, withData: (o+ki)%2 == 0})
+				if ki == 0 || r.Thorough() {
+					// the same fault as a transient one; and, for armored files,
+					// through the de-armoring reader alone
+					jobs = append(jobs, job{f: f, at: o, kind: k, max: max, withData: (o+ki)%2 == 1, once: true})
+					if f.armored {
+						jobs = append(jobs, job{f: f, at: o, kind: k, max: max, once: o%2 == 0, dearmor: true})
+					}
+				}
 			}
 		}
 	}
@@ -497,9 +507,13 @@ func srcSide(r *mon.Run) {
 	r.Set("src_fault_runs", len(jobs))
 	mon.Par(len(jobs), func(i int) {
 		j := jobs[i]
-		name := fmt.Sprintf("src %s fail@%d/%d kind=%s max=%d err-with-data=%v", j.f.name, j.at, len(j.f.file), j.kind.name, j.max, j.withData)
+		name := fmt.Sprintf("src %s fail@%d/%d kind=%s max=%d err-with-data=%v transient=%v dearmor-only=%v", j.f.name, j.at, len(j.f.file), j.kind.name, j.max, j.withData, j.once, j.dearmor)
 		r.Guard(name, func() {
-			fr := &mon.FaultReader{Data: j.f.file, FailAt: j.at, Err: j.kind.err, Max: j.max, WithData: j.withData}
+			fr := &mon.FaultReader{Data: j.f.file, FailAt: j.at, Err: j.kind.err, Max: j.max, WithData: j.withData, Once: j.once}
+			if j.dearmor {
+				dearmorOnly(r, name, fr, j.f.file, j.once)
+				return
+			}
 			// consumption mode rotates: Read loop, io.Copy (the reader's own
 			// WriteTo if it has one), io.ReadAll
 			mode := []int{0, ax.CopyMode, 0, ax.ReadAllMode, 1000}[(j.at+len(j.kind.name))%5]
@@ -520,6 +534,14 @@ func srcSide(r *mon.Run) {
 				r.Tab("src_error_phase", "Decrypt:"+region)
 				return
 			}
+			if j.once && res.ReadErr == io.EOF && bytes.Equal(res.Plain, j.f.pt) {
+				// a transient error that arrived together with the bytes a
+				// full read asked for is dropped by io.ReadFull (standard
+				// library contract); nothing was lost and the result is the
+				// complete true plaintext: not a violation, counted
+				r.Count("src_transient_error_absorbed_without_loss", 1)
+				return
+			}
 			if res.ReadErr == io.EOF || res.ReadErr == nil {
 				r.Violate(fmt.Sprintf("src-clean-eof:armor=%v:%s:%s", j.f.armored, region, j.kind.name),
 					fmt.Sprintf("%s: the source failed but decryption ended cleanly after %d bytes", name, len(res.Plain)), replay)
@@ -535,6 +557,57 @@ func srcSide(r *mon.Run) {
 			r.SampleN("src"+region, 1, map[string]any{"side": "source", "case": name, "released": len(res.Plain), "error": res.ReadErr.Error()})
 		})
 	})
+}
+
+// dearmorOnly drives armor.NewReader alone over a failing source: an error
+// other than io.EOF must surface, the bytes released must be a prefix of the
+// armored payload, and the reader must keep failing — also when the source
+// itself recovers (a stream that has failed keeps failing).
+func dearmorOnly(r *mon.Run, name string, fr *mon.FaultReader, text []byte, once bool) {
+	want, derr := refage.Dearmor(text)
+	if derr != nil {
+		return
+	}
+	rd := armor.NewReader(fr)
+	var out []byte
+	buf := make([]byte, 100)
+	var ferr error
+	for i := 0; i < 1<<20; i++ {
+		n, err := rd.Read(buf)
+		out = append(out, buf[:n]...)
+		if err != nil {
+			ferr = err
+			break
+		}
+	}
+	r.Eval(1)
+	if fr.Fired == 0 {
+		r.Count("src_fault_not_reached", 1)
+		return
+	}
+	r.Distinct(name)
+	r.Count("src_faults_fired", 1)
+	r.Count("dearmor_only_runs", 1)
+	replay := map[string]any{"case": name}
+	cls := fmt.Sprintf("transient=%v", once)
+	if once && ferr == io.EOF && bytes.Equal(out, want) {
+		r.Count("src_transient_error_absorbed_without_loss", 1)
+		return
+	}
+	if ferr == io.EOF || ferr == nil {
+		r.Violate("dearmor-clean-eof:"+cls, name+": the source failed but de-armoring ended cleanly", replay)
+		return
+	}
+	if len(out) > len(want) || !bytes.Equal(out, want[:len(out)]) {
+		r.Violate("dearmor-not-prefix:"+cls, name+": bytes released before the error are not a prefix of the armored payload", replay)
+	}
+	for i := 0; i < 3; i++ {
+		n, err := rd.Read(buf)
+		if n != 0 || err == nil || err == io.EOF {
+			r.Violate("dearmor-not-sticky:"+cls, fmt.Sprintf("%s: after failing with %v a later Read returned (%d, %v)", name, ferr, n, err), replay)
+			break
+		}
+	}
 }
 
 func regionOf(file []byte, armored bool, at int) string {
